@@ -528,6 +528,11 @@ class RemoteWorker(Worker, metaclass=RemoteWorkerMeta):
 
             # we need to be careful not to send a control socket here (see __getstate__)
             self._child = mp.get_context('spawn').Process(target=self._run_backend, name=f'{self.name}')
+            # let the owner (server, context) know about us before the child process exists, otherwise a shutdown request
+            # arriving before we are returned to it would leave the child behind
+            registry = self.__dict__.pop('_registry', None)
+            if registry is not None:
+                registry.append(self)
             self._child.start()
             self._dead = False
 
